@@ -17,6 +17,22 @@ pub(crate) fn acquire_internal<T>(internal: &'_ Internal<T>) -> MutexGuard<'_, C
     internal.lock().unwrap()
 }
 
+/// Returns the handle count after one more handle has been created.
+///
+/// Cloning handles and calling `mem::forget` on the clones (or simply keeping
+/// them) can overflow the counter. A wrapped counter reads zero, which means
+/// "no handle of this side is left": the other side would be told that the
+/// channel is disconnected while every handle is alive. There is no sensible
+/// way to recover from such a degenerate scenario, so like `Arc` and the
+/// standard library's channels this aborts instead of wrapping.
+#[inline(always)]
+pub(crate) fn next_handle_count(count: u32) -> u32 {
+    if count == u32::MAX {
+        std::process::abort();
+    }
+    count + 1
+}
+
 /// Tries to acquire mutex guard on channel internal for use in channel
 /// operations
 #[inline(always)]
